@@ -64,7 +64,7 @@ def check_truthiness(model: Model, report: Report, rule: str) -> None:
     for cell in operand_cells():
 
         def body(it: Interp, cell=cell) -> Any:
-            inst = it.new_inst(ci, "filter")
+            inst = it.harness_inst(ci, "filter")
             inst.attrs["token"] = it.new_opaque("token")
             inst.attrs["expression"] = expr_stub(it, model, make_operand(it, model, cell, "result"), "inner")
             ctxo = it.new_opaque("context", model.cls(FE + "FilterContext"))
@@ -112,7 +112,7 @@ def check_logic(model: Model, report: Report, rule: str) -> None:
             for rc in (cells if thorough else small):
 
                 def body(it: Interp, op=op, lc=lc, rc=rc) -> Any:
-                    inst = it.new_inst(le, "logical")
+                    inst = it.harness_inst(le, "logical")
                     inst.attrs["token"] = it.new_opaque("token")
                     inst.attrs["left"] = expr_stub(it, model, make_operand(it, model, lc, "left"), "left")
                     inst.attrs["right"] = expr_stub(it, model, make_operand(it, model, rc, "right"), "right")
@@ -131,7 +131,7 @@ def check_logic(model: Model, report: Report, rule: str) -> None:
     for rc in cells:
 
         def body2(it: Interp, rc=rc) -> Any:
-            inst = it.new_inst(pe, "prefix")
+            inst = it.harness_inst(pe, "prefix")
             inst.attrs["token"] = it.new_opaque("token")
             inst.attrs["right"] = expr_stub(it, model, make_operand(it, model, rc, "right"), "right")
             inst.attrs["operator"] = Const("!")
@@ -187,13 +187,13 @@ def check_scoping(model: Model, report: Report, rule: str) -> None:
 
                 def body(it: Interp, kind=kind, empty_query=empty_query, ci=ci, fn=fn) -> Any:
                     env = make_env(it, model, False)
-                    q = it.new_inst(qci, "subquery")
+                    q = it.harness_inst(qci, "subquery")
                     q.attrs["env"] = env
                     calls: List[Any] = []
                     if empty_query:
                         q.attrs["segments"] = PyTuple(())
                     else:
-                        seg = it.new_inst(model.cls("segments.JSONPathSegment"), "segment")
+                        seg = it.harness_inst(model.cls("segments.JSONPathSegment"), "segment")
 
                         def resolve(interp: Interp, args: List[Any], kwargs: Dict[str, Any]) -> Any:
                             calls.append(args[0] if args else None)
@@ -201,12 +201,12 @@ def check_scoping(model: Model, report: Report, rule: str) -> None:
 
                         it.stubs[(seg.id, "resolve")] = resolve
                         q.attrs["segments"] = PyTuple((seg,))
-                    inst = it.new_inst(ci, "embedded-query")
+                    inst = it.harness_inst(ci, "embedded-query")
                     inst.attrs["token"] = it.new_opaque("token")
                     inst.attrs["query"] = q
                     cur = it.new_sym("current", [kind])
                     root = it.new_sym("root")
-                    c = it.new_inst(model.cls(FE + "FilterContext"), "context")
+                    c = it.harness_inst(model.cls(FE + "FilterContext"), "context")
                     c.attrs.update({"env": env, "current": cur, "root": root})
                     r = it.call_function(fn, [inst, c], {}, None, self_av=inst)
                     return r, cur, root, calls, it
@@ -383,6 +383,13 @@ def check(model: Model, report: Report) -> None:
     report.assumptions += ["A1 host truthiness/len/isinstance semantics"]
     report.not_decided += ["grouping for arbitrary parenthesisation beyond the precedence/grouping shapes checked by C12/C04 rules"]
     _filtersel.check_filter_selector(model, report, "R02.1", nondet=False)
+    # the same rule with the nondeterministic flag on: every child is still tested exactly once and kept iff true
+    # (members may come in any order; a member tested twice or never changes the selection)
+    _filtersel.check_filter_selector(model, report, "R02.1", nondet=True)
+    report.rule("R02.7", "a query handed to a LogicalType parameter of any function is an existence test: true iff it selects at least one node, whatever the node's value and wherever the parameter stands (C10's conversion cells for LogicalType)")
+    from . import c10
+
+    c10.check_conversions(model, report, "R02.7", only_decl="LOGICAL")
     check_scoping(model, report, "R02.2")
     check_truthiness(model, report, "R02.3")
     check_logic(model, report, "R02.4")
